@@ -187,7 +187,7 @@ class Explorer:
         groups = C.split(insts, core.NCPU * 2)
         r = C.build_run(self.run.wd, cfg, "inv", [tu_text(g) for g in groups], C.SWEEP_FLAGS)
         self.st["sweep_builds"].append(str(cfg))
-        if len(r["S"]) != len(insts):
+        if len(r["S"]) != len(insts) and not any("trap-signal" in v.get("kind", "") for v in r["V"]):
             raise core.InfraError("inversion sweep: %d of %d instances reported" % (len(r["S"]), len(insts)))
         self.S += r["S"]
         for s in r["S"]:
@@ -204,8 +204,8 @@ class Explorer:
             if v["kind"] == "roundtrip":
                 what = ("%s: inverse_as(%s, inverse_as(%s, %s(%s{%s}))) gives %s, not %s (K = 10^%d)"
                         % (cfg, c[1].name, c[2].name, c[1].name, rep, v["x"], v["got"], v["exp"], c[3]))
-            viol(key, what, {"kind": "inv", "case_index": cs.index(c), "rep": rep, "implicit": imp, "x": int(v["x"]),
-                             "config": [cfg.cxx, cfg.std]})
+            viol(key, what, {"kind": "inv", "case_index": cs.index(c), "rep": rep, "implicit": imp, "x": int(float(v["x"])),
+                             "source_value": v["x"], "form": v["kind"], "config": [cfg.cxx, cfg.std]})
 
     def summary(self):
         st, S, insts, all_ps = self.st, self.S, self.insts or [], self.all_ps
